@@ -10,7 +10,17 @@ def A1r(ctx):
     n = 0
     # unregister only when this was the last handle
     allowed = {"<sync::arc::Arc<T> as std::ops::Drop>::drop": RTA + "ref_dec", A + "try_unwrap": RTA + "get_mut"}
-    for s in call_sites(prog, A + "unregister"):
+    # the function that removes a handle's entry from the registry (whatever it is called)
+    unreg = set()
+    for k, f2 in prog.fns.items():
+        if not k.startswith("sync::arc::"):
+            continue
+        for (b, t, c) in prog.sites(prog.ident(k)):
+            if is_std_collection_call(prog.callee_key(c), "remove") and mentions_field(arg_expr(f2.body, t, 0), EXEC, "arc_objs"):
+                unreg.add(enclosing_fn(k))
+    if len(unreg) != 1:
+        ctx.bad("A1r", "sync::arc::Arc", "expected exactly one function removing entries from the Arc registry, found %s" % sorted(unreg), detail="unregister-fn")
+    for s in call_sites(prog, unreg):
         fk = enclosing_fn(s["fn"])
         body = prog.fns[s["fn"]].body
         n += 1
